@@ -178,12 +178,31 @@ def run(tier):
     events = vp.read_ndjson(tpath)
 
     # 3. oracle: TLC folds the Contract over the recorded trace ----------------------------
-    r = vp.tlc(os.path.join(vp.SPEC, "Trace_AppPtr.tla"), os.path.join(vp.SPEC, "Trace_AppPtr.cfg"),
-               workers=1, timeout=900, env={"TRACE": tpath})
-    res = r.printed("RESULT")
-    if len(res) != 1 or res[0]["n"] != len(events):
-        raise vp.Broken("trace validation did not complete: %s" % r.out[-1500:])
-    chk.add_tlc("Trace_AppPtr", r, "trace validation of %d recorded events" % len(events))
+    # the fold restarts at every `reset`: long traces are cut at resets and the pieces validated in parallel
+    starts = [i for i, e in enumerate(events) if e["e"] == "reset"]
+    if not starts or starts[0] != 0:
+        raise vp.Broken("trace does not start with a reset")
+    npieces = max(1, min(12, len(events) // 15000))
+    cuts = [starts[(len(starts) * k) // npieces] for k in range(npieces)] + [len(events)]
+    cuts = sorted(set(cuts))
+    pieces = [(cuts[k], cuts[k + 1]) for k in range(len(cuts) - 1)]
+
+    def validate_piece(k):
+        lo, hi = pieces[k]
+        ppath = os.path.join(wd, "trace_piece_%d.ndjson" % k)
+        vp.write_ndjson(ppath, events[lo:hi])
+        rr = vp.tlc(os.path.join(vp.SPEC, "Trace_AppPtr.tla"), os.path.join(vp.SPEC, "Trace_AppPtr.cfg"),
+                    name="Trace_AppPtr_%d" % k, workers=1, timeout=900, env={"TRACE": ppath})
+        rs = rr.printed("RESULT")
+        if len(rs) != 1 or rs[0]["n"] != hi - lo:
+            raise vp.Broken("trace validation did not complete (piece %d): %s" % (k, rr.out[-1500:]))
+        return rr, [b + lo for b in rs[0]["bad"]]
+    from concurrent.futures import ThreadPoolExecutor
+    with ThreadPoolExecutor(max_workers=6) as ex:
+        outs = list(ex.map(validate_piece, range(len(pieces))))
+    r = outs[0][0]
+    res = [{"bad": sorted(b for _, bs in outs for b in bs), "n": len(events)}]
+    chk.add_tlc("Trace_AppPtr", r, "trace validation of %d recorded events (in %d pieces cut at resets)" % (len(events), len(pieces)))
     n_exec = sum(1 for e in events if e["e"] == "reset")
     # the same refusals in the library's DEFAULT failure configuration (no exceptions, no custom handler): the process ends
     import abortcommon
